@@ -23,7 +23,7 @@ DRIVER = "Driver/C07.lean"
 OBLIGATIONS = ["NiftyVerif.C07." + t for t in (
     "inv_init", "inv_construct", "inv_step", "inv_run", "field_constant_step", "field_constant",
     "field_constant_from_start", "ops_step", "ops_from_field_constant",
-    "asFound_violates", "prior_view_escapes", "reenabled_flag_escapes")]
+    "asFound_violates", "asFound_base_escapes", "prior_view_escapes", "reenabled_flag_escapes")]
 RULE = ("histories of Heap.Op operations (every public Field constructor path x every write path: source array, "
         "views, .val/.raw/.asnumpy() handles, __setitem__, in-place ops, out= ufuncs, flags) generated while running "
         "the real code; length <= 12 quick / <= 40 thorough, 2-3+ fields; plus the full constructor x attack matrix; "
@@ -43,6 +43,7 @@ ASSUMPTIONS = ["1-D float64 arrays holding small integers (class E)",
                "in the alphabet"]
 
 WRITE_OPS = {"writeArr", "wrapSetitem", "wrapIadd", "ufuncOut", "setFlag"}
+# Heap.Op also has `arrBase` (`a.base`): navigation from any ndarray handle to the array it is a view of
 
 
 def _dom(n):
@@ -140,7 +141,17 @@ class Real:
             ret = ["arr", len(A) - 1]
         elif k == "writeArr":
             a = self._get(A, op["a"])
-            a[op["i"]] = float(op["v"])
+            if a.ndim == 0:       # the 0-d array behind a broadcast: one entry, addressed as a[()]
+                if not a.flags.writeable:
+                    raise ValueError("assignment destination is read-only")
+                if op["i"] != 0:
+                    raise IndexError("index out of bounds")
+                a[()] = float(op["v"])
+            else:
+                a[op["i"]] = float(op["v"])
+        elif k == "arrBase":
+            b = self._get(A, op["a"]).base
+            ret = None if b is None else ["arr", self._idx(A, b)]
         elif k == "setFlag":
             a = self._get(A, op["a"])
             if op["b"] and self._is_field_buf(a):
@@ -245,6 +256,7 @@ class Real:
                 f = ift.makeField(d, v)
             else:
                 f = ift.Field.full(d, v)
+            A.append(f.raw.base)          # the 0-d array behind np.broadcast_to stays reachable as `.base`
             A.append(f.raw)
             W.append(f.val)
             ret = self._new_field(f, k)
@@ -431,7 +443,9 @@ def gen_history(rng, length, p_unguarded=0.12):
         A, W, F, O = R.arrs, R.wraps, R.fields, R.ops
         choices = [("newArr", 3)]
         if A:
-            choices += [("sliceArr", 2), ("writeArr", 4), ("wrap", 3), ("fieldFromArr", 4), ("setFlag", 1)]
+            choices += [("writeArr", 4), ("setFlag", 1), ("arrBase", 2)]
+        if any(a.ndim == 1 for a in A):
+            choices += [("sliceArr", 2), ("wrap", 3), ("fieldFromArr", 4)]
         if W:
             choices += [("wrapLock", 1), ("wrapVal", 1), ("wrapAsnumpy", 1), ("wrapGetitem", 3), ("wrapSame", 2),
                         ("wrapSetitem", 4), ("wrapIadd", 3), ("ufuncOut", 3), ("wrapCopy", 1), ("fieldFromWrap", 3)]
@@ -455,9 +469,10 @@ def gen_history(rng, length, p_unguarded=0.12):
             return int(W[i].shape[0])
 
         # handles that alias a field are preferred targets for writes: that is where the property lives
-        def pick_arr():
-            hot = [i for i, a in enumerate(A) if R._is_field_buf(a)]
-            return rng.choice(hot) if hot and rng.random() < 0.6 else ri(len(A))
+        def pick_arr(any_dim=False):
+            idx = [i for i, a in enumerate(A) if any_dim or a.ndim == 1]
+            hot = [i for i in idx if R._is_field_buf(A[i])]
+            return rng.choice(hot) if hot and rng.random() < 0.6 else rng.choice(idx)
 
         def pick_wrap():
             hot = [i for i, w in enumerate(W) if R._is_field_buf(w.val)]
@@ -473,14 +488,19 @@ def gen_history(rng, length, p_unguarded=0.12):
             else:
                 lo = ri(n + 1)
                 op.update(a=a, lo=lo, hi=ri(lo, n + 2))
+        elif k == "arrBase":
+            op.update(a=pick_arr(True))
         elif k == "writeArr":
-            a = pick_arr()
-            op.update(a=a, i=ri(lenA(a) + (1 if rng.random() < 0.1 else 0)) if lenA(a) else 0, v=ri(-99, 100))
+            a = pick_arr(True)
+            n = lenA(a) if A[a].ndim else 1
+            op.update(a=a, i=ri(n + (1 if rng.random() < 0.1 else 0)) if n else 0, v=ri(-99, 100))
         elif k == "setFlag":
-            a = pick_arr() if unguarded else ri(len(A))
+            a = pick_arr(True) if unguarded else ri(len(A))
             b = rng.random() < 0.4
             if b and not unguarded and R._is_field_buf(A[a]):
                 b = False
+            if b and A[a].ndim == 0:
+                b = False     # the single memory cell behind a broadcast is not re-enabled: outside the model
             if b and A[a].ndim and A[a].strides[0] == 0:
                 b = False     # stride-0 broadcast results (one memory cell behind n entries) are not re-enabled: outside the model
             op.update(a=a, b=b)
@@ -514,7 +534,7 @@ def gen_history(rng, length, p_unguarded=0.12):
             if rng.random() < 0.07:
                 op["wy"] = ri(len(W))
         elif k == "fieldFromArr":
-            cands = list(range(len(A)))
+            cands = [i for i, a in enumerate(A) if a.ndim == 1]
             if not unguarded:
                 ok = [i for i in cands if not R._other_writable_alias(A[i])]
                 cands = ok or cands
@@ -595,6 +615,9 @@ def attack_matrix():
         for a in srcs:
             attacks.append([{"op": "writeArr", "a": a, "i": 0, "v": 99}])
         attacks.append([{"op": "fieldRaw", "f": f}] + ([{"op": "writeArr", "a": fa, "i": 1, "v": 98}] if fa >= 0 else []))
+        if fa >= 0:
+            # navigate to `.base` of the raw handle and of every alias, write through whatever comes back
+            attacks.append([{"op": "arrBase", "a": fa}] + [{"op": "writeArr", "a": a, "i": 0, "v": 83} for a in range(na)])
         attacks.append([{"op": "fieldAsnumpyRw", "f": f}, {"op": "writeArr", "a": na, "i": 1, "v": 97}] +
                        ([{"op": "writeArr", "a": fa, "i": 1, "v": 96}] if fa >= 0 else []))
         if fw >= 0:
